@@ -176,11 +176,27 @@ def run_case(case):
     from .c19 import repeated_eigenvalues
 
     degenerate = (e.startswith("like") or e == "joint") and repeated_eigenvalues(dic, torch)
+    eig_params = set()
     if degenerate:
         C["points_with_repeated_eigenvalues"] = 1
+        # the mechanism concerns the parameters the rate matrix is built from (what is back-propagated through the eigendecomposition);
+        # branch lengths, clock and site-model parameters reach p_t through t only
+        models = [o for o in dic.values() if hasattr(o, "q") and hasattr(o, "frequencies") and hasattr(o, "p_t")]
+
+        def qs():
+            with torch.no_grad():
+                return [torch.cat([m.q().reshape(-1), m.frequencies.reshape(-1)]).clone() for m in models]
+
+        q0 = qs()
+        for pid in leaves:
+            dic[pid].tensor = base[pid] * 1.003 + 1e-3
+            q1 = qs()
+            dic[pid].tensor = base[pid].clone()
+            if any(a.shape != b.shape or bool((a - b).abs().max() > 0) for a, b in zip(q0, q1)):
+                eig_params.add(pid)
 
     def sig_for(kind, pid):
-        if degenerate:
+        if degenerate and pid in eig_params and kind in ("wrong", "nonfinite"):
             return "C12:gradient-wrong-or-not-finite:repeated-eigenvalues-of-the-rate-matrix"
         return "C12:%s-gradient:%s:%s:%s" % (kind, g["name"], e, pid)
 
